@@ -45,6 +45,14 @@ impl Concurrent<VirtualSystem> {
     {
         let mut task = pin!(task);
         while poll!(&mut task).is_pending() {
+            // A preemption point may have asked to deschedule this virtual
+            // process: let the executor run other processes first.
+            #[cfg(feature = "verif-hooks")]
+            let preempted = crate::verif_hooks::take_yield_request();
+            #[cfg(feature = "verif-hooks")]
+            if preempted {
+                crate::verif_hooks::yield_to_executor().await;
+            }
             let state = self.inner.current_process().state();
             match state {
                 ProcessState::Running => {
@@ -63,6 +71,12 @@ impl Concurrent<VirtualSystem> {
                     // The process has been terminated, so we simply abort the task.
                     return;
                 }
+            }
+
+            #[cfg(feature = "verif-hooks")]
+            if preempted {
+                // Resume the task without waiting in `select`.
+                continue;
             }
 
             let mut select = pin!(self.select());
